@@ -30,7 +30,14 @@ type LV struct {
 }
 
 // Person is the struct representation used by generated bindings.
+// Base is embedded in Person: its fields are promoted.
+type Base struct {
+	ID   string
+	Slug string `liquid:"slug"`
+}
+
 type Person struct {
+	Base
 	Name string
 	Age  int
 	Tags []string
@@ -43,6 +50,24 @@ func (p Person) Upper() string { return strings.ToUpper(p.Name) }
 
 // PtrLen has a pointer receiver.
 func (p *Person) PtrLen() int { return len(p.Tags) }
+
+// recA and recB return values of two DISTINCT struct types that print the same
+// type name (main.Rec) and map the property "name" to different fields.
+func recA(title, other string) any {
+	type Rec struct {
+		Title string `liquid:"name"`
+		Other string
+	}
+	return Rec{title, other}
+}
+
+func recB(title, other string) any {
+	type Rec struct {
+		Other string `liquid:"name"`
+		Title string
+	}
+	return Rec{other, title}
+}
 
 // hDrop is a pure Drop: ToLiquid returns a value fixed at construction.
 type hDrop struct{ v any }
@@ -129,6 +154,11 @@ func (v *LV) Build(r *Rng) any {
 			return float32(v.F)
 		}
 		return v.F
+	case "rec":
+		if v.R == "b" {
+			return recB(v.S, "other-"+v.S)
+		}
+		return recA(v.S, "other-"+v.S)
 	case "jnum":
 		return json.Number(v.S)
 	case "buf": // an io.WriterTo-valued binding
@@ -196,6 +226,13 @@ func (v *LV) Build(r *Rng) any {
 			spare = r.Intn(2 * spare) // equal values, differently constructed: capacity is not part of the value
 		}
 		out := make([]any, len(v.A), len(v.A)+spare)
+		if v.R == "alias" && r == nil && len(v.A) > 0 {
+			shared := v.A[0].Build(nil)
+			for i := range v.A {
+				out[i] = shared // aliasing is not part of the value: equal bindings, same rendering
+			}
+			return out
+		}
 		for i, x := range v.A {
 			out[i] = x.Build(r)
 		}
@@ -273,7 +310,7 @@ func (v *LV) Build(r *Rng) any {
 		}
 		return out
 	case "struct":
-		p := Person{Name: v.S, Age: int(v.I), note: "n:" + v.S}
+		p := Person{Base: Base{ID: "id-" + v.S, Slug: "slug-" + v.S}, Name: v.S, Age: int(v.I), note: "n:" + v.S}
 		for _, x := range v.A {
 			p.Tags = append(p.Tags, x.S)
 		}
@@ -302,7 +339,9 @@ var words = []string{"a", "b", "c", "apple", "Banana", "cherry", "x y", "Ã©", "æ
 var longWord = strings.Repeat("lorem ipsum dolor sit amet ", 9)
 var longMulti = strings.Repeat("æ—¥æœ¬èªžã®ãƒ†ã‚­ã‚¹ãƒˆ ", 12)
 var keyWords = []string{"a", "b", "c", "d", "e", "f", "g", "h", "i", "j", "k", "l", "name", "title", "n",
-	"o", "p", "q", "r", "s", "t", "u", "v", "w", "x2", "y2", "z2"}
+	"o", "p", "q", "r", "s", "t", "u", "v", "w", "x2", "y2", "z2",
+	// keys that differ from others only in case
+	"A", "B", "Name", "TITLE", "N", "nAmE"}
 
 func genScalar(r *Rng) *LV {
 	v := genScalar1(r)
@@ -383,6 +422,14 @@ func genArr(r *Rng, depth int) *LV {
 			} else {
 				v.A = append(v.A, genScalar(r))
 			}
+		}
+		if depth > 0 && n > 1 && r.Chance(0.4) {
+			// records sharing one default list: every inner array is the same Go slice (or a
+			// prefix of it) in the canonical build and a separate equal copy in a rebuilt one
+			for i := range v.A {
+				v.A[i] = v.A[0]
+			}
+			v.R = "alias"
 		}
 	}
 	return v
@@ -504,6 +551,7 @@ func GenEnv(r *Rng, mapLo, mapHi int) *Env {
 	add("m", genMap(r, 1, mapLo, mapHi))
 	add("m2", genMap(r, 0, mapLo, mapHi))
 	add("p", genStruct(r))
+	add("q", &LV{T: "rec", S: pick(r, words), R: pick(r, []string{"a", "b"})})
 	d := &LV{T: "drop"}
 	defer func() {
 		if r.Chance(0.15) && len(d.A) == 1 {
